@@ -649,7 +649,12 @@ func (fc *FuncCtx) loopSpec(fr *Frame, li *loopInfo) *LoopSpec {
 func (fc *FuncCtx) enterLoop(fr *Frame, li *loopInfo, cur *State) *State {
 	spec := fc.loopSpec(fr, li)
 	if len(spec.Invariants) == 0 {
-		fc.unsupported("loop %d of %s has no invariant in the contract", li.ordinal, fr.prefix)
+		if fc.autoLoopInv {
+			e, _ := ParseExpr("true")
+			spec.Invariants = append(spec.Invariants, &Clause{Label: "auto", Src: "true", E: e})
+		} else {
+			fc.unsupported("loop %d of %s has no invariant in the contract", li.ordinal, fr.prefix)
+		}
 	}
 	pos := li.minPos
 	// init
@@ -905,6 +910,7 @@ func (fc *FuncCtx) execInstr(fr *Frame, st *State, ins ssa.Instruction) {
 			ref := fc.newRef(st, "new."+clip(x.Comment, 12))
 			if _, isSt := et.Underlying().(*types.Struct); isSt {
 				fc.notePrivate(st, et, ref)
+				fc.freshRefs[ref] = true
 			}
 			pl := fc.objPlace(ref, et)
 			fc.zeroInit(st, pl, et, ref)
@@ -932,6 +938,9 @@ func (fc *FuncCtx) execInstr(fr *Frame, st *State, ins ssa.Instruction) {
 		f := stt.Field(x.Field)
 		if p.Kind == "obj" && len(p.Path) == 0 && strings.HasPrefix(p.Prefix, "O!") && embeddedObject(f.Type()) {
 			if _, named := p.Typ.(*types.Named); named {
+				gp := p
+				gp.Path = []string{f.Name()}
+				fc.checkGuard(fr, st, gp, x.Pos(), false)
 				fr.vals[x] = fc.objPlace(fc.derivedRef(p.Typ, f.Name(), p.RefTerm), f.Type())
 				return
 			}
